@@ -115,8 +115,49 @@ class Acc:
         return self
 
 
+_COV = {'dir': os.environ.get('VERIF_COV'), 'lines': set(), 'on': False}
+
+
+def cov_start():
+    """optional line-coverage probe over the tree under test (tools/coverage_probe.py): sys.monitoring LINE events, each location disabled after
+    its first hit, so the cost is negligible; never active in registered commands (VERIF_COV unset)"""
+    if not _COV['dir'] or _COV['on'] or not hasattr(sys, 'monitoring'):
+        return
+    mon = sys.monitoring
+    root = os.path.realpath(os.environ.get('VERIF_REPO', '/repo')) + os.sep
+
+    def on_line(code, line):
+        fn = code.co_filename
+        if fn.startswith(root):
+            _COV['lines'].add((fn[len(root):], line))
+        return mon.DISABLE
+    try:
+        mon.use_tool_id(mon.COVERAGE_ID, 'vfcov')
+    except ValueError:
+        pass
+    mon.register_callback(mon.COVERAGE_ID, mon.events.LINE, on_line)
+    mon.set_events(mon.COVERAGE_ID, mon.events.LINE)
+    _COV['on'] = True
+
+
+def cov_dump(tag):
+    if not _COV['on']:
+        return
+    os.makedirs(_COV['dir'], exist_ok=True)
+    with open(os.path.join(_COV['dir'], '%s-%d-%d.json' % (tag, os.getpid(), int(time.time() * 1e6))), 'w') as f:
+        json.dump(sorted(_COV['lines']), f)
+
+
 def _shard_entry(args):
     fn, arg = args
+    cov_start()
+    try:
+        return _shard_entry2(fn, arg)
+    finally:
+        cov_dump('shard')
+
+
+def _shard_entry2(fn, arg):
     try:
         r = fn(*arg) if isinstance(arg, tuple) else fn(arg)
         return r
@@ -202,8 +243,10 @@ def run_check(prop, tier, seed):
     t0 = time.time()
     mod = importlib.import_module('vf.props.' + prop.lower())
     ctx = Ctx(prop, tier, seed)
+    cov_start()
     try:
         mod.run(ctx)
+        cov_dump('main-' + prop)
     except Exception:
         out('HARNESS-ERROR: ' + traceback.format_exc())
         return 2
